@@ -626,15 +626,16 @@ fn hp_genesis_empty_tc() { hostile_genesis_tc(0) }
 fn hp_genesis_subquorum_tc() { hostile_genesis_tc(2) }
 
 
-/// A valid leader proposal that carries BOTH a QC (round 6) and a valid TC (round 8) reaches a node in round 3: it enters
-/// round 9 on the TC's evidence, and its high QC still becomes the QC of the proposal (the timeout it may sign next must
-/// carry at least that QC).
-#[kani::proof]
-#[kani::unwind(12)]
-#[kani::stub(std::fmt::format, stub_format)]
-fn hp_valid_tc() {
+/// A valid leader proposal that carries BOTH a QC (round 6) and a valid TC (round 8) reaches a node in round `cur`:
+/// cur = 3: it enters round 9 on the TC's evidence, and its high QC still becomes the QC of the proposal (the timeout it may
+/// sign next must carry at least that QC); cur = 12 (a delayed proposal from an earlier view change): the round never
+/// decreases, the QC is still taken into account.
+fn handle_proposal_tc(cur: Round) {
     store::reset();
-    let me = 3u8; // does not lead round 10
+    let end_round: Round = if cur > 9 { cur } else { 9 };
+    // leads neither end_round + 1 nor round 10 (where a node that wrongly fell back to round 9 would vote to itself)
+    let me = if cur > 9 { 3u8 } else { ((end_round + 2) % 4) as u8 };
+    assert!(me as u64 != (end_round + 1) % 4 && me as u64 != 10 % 4);
     let mut env = mk_core(me, &EQ4);
     let b0 = blk(1, 5, Digest::default(), 0);
     let d0 = b0.digest();
@@ -645,7 +646,7 @@ fn hp_valid_tc() {
     vwit::assume(d0 != d1 && d0 != Digest::default() && d1 != Digest::default());
     store::script_strict(&[1, 0]);
     env.core.last_committed_round = 4;
-    any_node_state_at(&mut env, d0.clone(), 3);
+    any_node_state_at(&mut env, d0.clone(), cur);
     let r: Round = vwit::any_u64();
     vwit::assume(r > 6 && r < (1u64 << 62));
     let author = leader_of(r);
@@ -656,17 +657,25 @@ fn hp_valid_tc() {
     let s0 = snap(&env);
     let res = run_ready(env.core.handle_proposal(&b));
     assert!(res.is_ok());
-    assert!(env.core.round == 9, "C10 round after a proposal carrying a TC of round 8");
+    assert!(env.core.round == end_round, "C10 round after a proposal carrying a TC of round 8 (must be max(current, 9): never decreases)");
     assert!(env.core.high_qc.round == if 6 > s0.hq { 6 } else { s0.hq }, "C10 high_qc not raised to the QC of a TC-carrying proposal");
-    let may_vote = r == 9 && r > s0.lv;
+    let may_vote = end_round == 9 && r == 9 && r > s0.lv;
     if may_vote {
         assert!(env.core.last_voted_round == 9 && sent_len() == 1 && sent_tag(0) == TAG_VOTE, "C03 TC-justified vote expected");
     } else {
         assert!(env.core.last_voted_round == s0.lv && sent_len() == 0, "C03 vote although the rule forbids it");
     }
-    vwit::cover!(may_vote);
+    vwit::cover!(may_vote || end_round != 9);
     vwit::cover!(!may_vote && s0.hq < 6);
     std::mem::forget(res);
     std::mem::forget((b, b0, b1, d0, d1));
     std::mem::forget(env);
 }
+#[kani::proof]
+#[kani::unwind(12)]
+#[kani::stub(std::fmt::format, stub_format)]
+fn hp_valid_tc() { handle_proposal_tc(3) }
+#[kani::proof]
+#[kani::unwind(12)]
+#[kani::stub(std::fmt::format, stub_format)]
+fn hp_valid_tc_stale() { handle_proposal_tc(12) }
